@@ -251,9 +251,8 @@ for name, op, rec, unwind, defs, clause, muts in OPS:
 # lenprefix: FAILS on the pinned tree (genuine defect: mode not restored when the length pattern fails) - kept disabled
 opunit("lenprefix", "RULE_LENPREFIX",
        "lenprefix: mode, depth and window restored on every path; the length capture is read inside the capture stack; failures after the length pattern leave the saved CapState",
-       [M("lenprefix-depth-leak", "            next_text = peg_rule(s, s->bytecode + rule[1], text);\n            up1(s);\n            if (NULL == next_text) return NULL;", "            next_text = peg_rule(s, s->bytecode + rule[1], text);\n            if (NULL == next_text) return NULL;", "RESTORE")],
-       tail_not=None, unwindset=dict(HLOOPS, **{lid: 1 for lid in TAILS.values()}), tier="thorough", timeout=300,
-       disabled_reason="genuine defect in /repo: RULE_LENPREFIX sets s->mode = PEG_MODE_NORMAL and returns NULL without restoring it when the length pattern fails (peg.c, `if (NULL == next_text) return NULL;` before `s->mode = oldmode;`). Obligation 'C12 RESTORE: mode equals its entry value on return' FAILS. Reproducer: (peg/match '(% (+ (lenprefix (number :d) \"a\") (* (<- \"ab\") (<- \"cd\")))) \"abcd\") gives @[\"\"] instead of @[\"abcd\"].")
+       [M("lenprefix-mode-leak", "            up1(s);\n            s->mode = oldmode;\n            if (NULL == next_text) return NULL;", "            up1(s);\n            if (NULL == next_text) return NULL;\n            s->mode = oldmode;", "RESTORE")],
+       tail_not=None, unwindset=dict(HLOOPS, **{lid: 1 for lid in TAILS.values()}), tier="quick", timeout=300)
 
 json.dump({"units": units}, open(os.path.join(V, "units", "C12.json"), "w"), indent=1)
 print("wrote %d units" % len(units))
